@@ -22,6 +22,7 @@ import (
 	"encoding/json"
 	"fmt"
 	"net/http"
+	"sort"
 	"strings"
 
 	grpcm "goa.design/goa/v3/grpc/middleware"
@@ -38,7 +39,11 @@ type chainCase struct {
 	Sampling []int  `json:"sampling"` // per hop: 0 | 100
 	Inbound  string `json:"inbound"`  // none | trace | trace+parent
 	IDFuncs  string `json:"id_funcs"` // default | counters
-	Real     bool   `json:"real,omitempty"`
+	// Forward[i]: hop i's handler behaves like a gateway — it copies everything it received
+	// (incoming metadata / request headers) into the outgoing context / request before calling
+	// the traced client, so stale trace-id / parent-span-id entries are already there.
+	Forward []bool `json:"forward,omitempty"`
+	Real    bool   `json:"real,omitempty"`
 }
 
 type hopRecord struct {
@@ -94,22 +99,34 @@ func (r *chainRun) arrive(i int, hdr http.Header, md metadata.MD) {
 	r.res.Transitions++
 	r.servers[i].serve(hdr, md, func(ctx context.Context) {
 		observeTrace(ctx, &h.Ctx)
-		r.forward(i, ctx)
+		r.forward(i, ctx, hdr)
 	})
 }
 
 // forward is the handler of hop i calling the next hop (or the sink) through goa's traced client.
-func (r *chainRun) forward(i int, ctx context.Context) {
+func (r *chainRun) forward(i int, ctx context.Context, inHdr http.Header) {
 	fam := family(r.cs.Kinds[i])
 	if i+1 < len(r.cs.Kinds) {
 		fam = family(r.cs.Kinds[i+1])
 	}
 	r.res.Transitions++
+	gateway := i < len(r.cs.Forward) && r.cs.Forward[i]
+	// what the handler received, in both shapes
+	var received [][2]string
+	if gateway {
+		received = receivedPairs(ctx, inHdr)
+		if fam != "http" {
+			ctx = forwardToOutgoing(ctx, received)
+		}
+	}
 	switch fam {
 	case "http":
 		req, err := http.NewRequestWithContext(ctx, "GET", "http://next.hop"+httpPath, nil)
 		if err != nil {
 			panic(err)
+		}
+		for _, kv := range received {
+			req.Header.Add(kv[0], kv[1])
 		}
 		doer := httpm.WrapDoer(doerFunc(func(q *http.Request) (*http.Response, error) {
 			r.arrive(i+1, q.Header.Clone(), nil)
@@ -137,6 +154,41 @@ func (r *chainRun) forward(i int, ctx context.Context) {
 				return nil, nil
 			})
 	}
+}
+
+// receivedPairs lists what a handler received from its caller: the request headers (HTTP hop)
+// or the incoming metadata (gRPC hop), in a deterministic order.
+func receivedPairs(ctx context.Context, inHdr http.Header) [][2]string {
+	var out [][2]string
+	src := map[string][]string(inHdr)
+	if inHdr == nil {
+		md, _ := metadata.FromIncomingContext(ctx)
+		src = md
+	}
+	keys := make([]string, 0, len(src))
+	for k := range src {
+		keys = append(keys, k)
+	}
+	sort.Strings(keys)
+	for _, k := range keys {
+		if strings.HasPrefix(k, ":") {
+			continue
+		}
+		for _, v := range src[k] {
+			out = append(out, [2]string{k, v})
+		}
+	}
+	return out
+}
+
+// forwardToOutgoing is the gateway pattern for gRPC clients: everything received goes into the
+// outgoing metadata of the context handed to the traced client.
+func forwardToOutgoing(ctx context.Context, pairs [][2]string) context.Context {
+	md := metadata.MD{}
+	for _, kv := range pairs {
+		md.Append(kv[0], kv[1])
+	}
+	return metadata.NewOutgoingContext(ctx, md)
 }
 
 func hopOptions(cs chainCase, i int) []middleware.TraceOption {
@@ -276,7 +328,35 @@ func checkChain(cs chainCase) (fails []failure, outcome string, state string, tr
 			traced++
 		}
 	}
-	return fails, fmt.Sprintf("chain depth=%d inbound=%s traced-hops=%d sink-got-trace=%v", len(cs.Kinds), cs.Inbound, traced, res.Sink.HasTrace), state, res.Transitions
+	gw := 0
+	for _, f := range cs.Forward {
+		if f {
+			gw++
+		}
+	}
+	return fails, fmt.Sprintf("chain depth=%d inbound=%s traced-hops=%d gateway-hops=%d sink-got-trace=%v", len(cs.Kinds), cs.Inbound, traced, gw, res.Sink.HasTrace), state, res.Transitions
+}
+
+// forwardVectors returns the per-hop gateway flags to explore for a depth: every vector when
+// full, else all-plain and all-gateway. All-plain comes first.
+func forwardVectors(depth int, full bool) [][]bool {
+	if !full {
+		all := make([]bool, depth)
+		for i := range all {
+			all[i] = true
+		}
+		return [][]bool{make([]bool, depth), all}
+	}
+	var out [][]bool
+	core.Sequences(2, depth, func(seq []int) bool {
+		v := make([]bool, depth)
+		for i, b := range seq {
+			v[i] = b == 1
+		}
+		out = append(out, v)
+		return true
+	})
+	return out
 }
 
 func runChains(c *core.Ctx) {
@@ -287,6 +367,12 @@ func runChains(c *core.Ctx) {
 	}
 	inbounds := []string{"none", "trace", "trace+parent"}
 	idfuncs := []string{"default", "counters"}
+	// gateway behaviour: the complete {plain, gateway}^depth product up to this depth, beyond it
+	// only the two uniform vectors
+	fullForwardDepth := 3
+	if c.Thorough() {
+		fullForwardDepth = 4
+	}
 	levels := map[string]any{}
 	var cases int64
 	for depth := 1; depth <= maxDepth; depth++ {
@@ -308,22 +394,24 @@ func runChains(c *core.Ctx) {
 				}
 				for _, in := range inbounds {
 					for _, idf := range idfuncs {
-						cs := chainCase{Kinds: string(ks), Sampling: sampling, Inbound: in, IDFuncs: idf}
-						fails, outcome, state, n := checkChain(cs)
-						key, _ := json.Marshal(cs)
-						c.State("chain:"+string(key)+state, depth >= 2)
-						states[state] = true
-						c.Exec(int64(n))
-						noteOutcome(c, outcome)
-						cases++
-						levelCases++
-						levelTrans += int64(n)
-						if cases%509 == 0 {
-							c.Sample(replayCase{Part: "chain", Chain: &cs})
-						}
-						if len(fails) > 0 {
-							cc := cs
-							report(c, fails, replayCase{Part: "chain", Chain: &cc}, func() []failure { f, _, _, _ := checkChain(cc); return f })
+						for _, fw := range forwardVectors(depth, depth <= fullForwardDepth) {
+							cs := chainCase{Kinds: string(ks), Sampling: sampling, Inbound: in, IDFuncs: idf, Forward: fw}
+							fails, outcome, state, n := checkChain(cs)
+							key, _ := json.Marshal(cs)
+							c.State("chain:"+string(key)+state, depth >= 2)
+							states[state] = true
+							c.Exec(int64(n))
+							noteOutcome(c, outcome)
+							cases++
+							levelCases++
+							levelTrans += int64(n)
+							if cases%509 == 0 {
+								c.Sample(replayCase{Part: "chain", Chain: &cs})
+							}
+							if len(fails) > 0 {
+								cc := cs
+								report(c, fails, replayCase{Part: "chain", Chain: &cc}, func() []failure { f, _, _, _ := checkChain(cc); return f })
+							}
 						}
 					}
 				}
@@ -334,5 +422,5 @@ func runChains(c *core.Ctx) {
 		levels[fmt.Sprintf("depth_%d", depth)] = map[string]int64{"chains": levelCases, "transitions": levelTrans, "distinct_identifier_shapes": int64(len(states))}
 	}
 	c.Note("chain_levels", levels)
-	c.Note("chain_bounds", fmt.Sprintf("hop kinds %q, depth 1..%d complete, sampling {0,100} per hop, inbound %v, id functions %v", kinds, maxDepth, inbounds, idfuncs))
+	c.Note("chain_bounds", fmt.Sprintf("hop kinds %q, depth 1..%d complete, sampling {0,100} per hop, inbound %v, id functions %v, per-hop gateway flag (handler forwards received headers/metadata): complete product up to depth %d, uniform vectors beyond", kinds, maxDepth, inbounds, idfuncs, fullForwardDepth))
 }
